@@ -1,2 +1,23 @@
-(* C11 -- placeholder while the proofs are being built *)
-From Verif Require Import Base.GoInt Json.StreamModel.
+(* C11 -- json.Decoder and Parse frame a byte stream into exactly its values, however the bytes arrive.
+   The Decoder model (Json/StreamModel.v: read_full, read_value, decode_all over reader scripts) is hand-written and
+   tied to /repo/json/json.go Decoder.readValue by correspondence on every run; the scanner it calls is the
+   REGENERATED translation of json/parse.go. The value stream specification (Json/StateSpec.v: frame) is derived
+   from the RFC 8259 grammar alone. *)
+From Verif Require Import Base.GoInt Json.Ext Json.StreamModel Json.StateSpec Json.StreamProofs.
+
+(* EVERY reader script (any chunking, zero-length reads) ending with io.EOF: exactly the values of the concatenated
+   bytes, then io.EOF at a clean end and an error other than io.EOF (never fuel exhaustion) otherwise *)
+Theorem stream_independent : stream_independent_statement.
+Proof. exact StreamProofs.stream_independent. Qed.
+
+(* two scripts carrying the same bytes yield the same values AND the same terminal condition *)
+Theorem chunking_irrelevant : chunking_irrelevant_statement.
+Proof. exact StreamProofs.chunking_irrelevant. Qed.
+
+(* a reader that fails: a prefix of the values, then the reader's error or a syntax error met earlier *)
+Theorem stream_failing : stream_failing_statement.
+Proof. exact StreamProofs.stream_failing. Qed.
+
+(* InputOffset never decreases, for every script and terminal condition *)
+Theorem offset_monotone : offset_monotone_statement.
+Proof. exact StreamProofs.offset_monotone. Qed.
